@@ -439,6 +439,8 @@ def shrink_item(item, rerun_case):
     mode = item["mode"]
     if mode == "c03e2e":
         return shrink_e2e(item, rerun_case)
+    if mode in ("c04cli", "c04os"):
+        return item          # already small; their tokens are not those of a loop case
 
     def fails(case_line):
         impl, model, sb = rerun_case(mode, case_line, crate="hx-loop", release=False, model_input=model_input, drv="loop")
@@ -534,6 +536,22 @@ def e2e_cases(rng, count):
             cases.append(e2e_case(tag, "attr", "t", n, s, th, extra))
         cases.append(e2e_case(tag, "attr", "t", n, s, th, "arg=" + args[-1] + (" nomark=1" if nomark else "") + " start=api-test"))
         cases.append(e2e_case(tag, "attr", "b", n, s, th, "arg=" + args[0] + (" nomark=1" if nomark else "") + " start=args-test-then-api-bench"))
+    # siblings of one module with different thread counts, run in one process in name order:
+    # a benchmark's thread counts are its own, whatever ran before it
+    sib = {"s1_t2": (3, 2, [2]), "s2_plain": (3, 2, [1]), "s3_t3": (3, 2, [3]), "s4_t12": (2, 1, [1, 2])}
+    for tag, (n, s, th) in sib.items():
+        others = ",".join(x for x in sib if x != tag)
+        cases.append(e2e_case(tag, "attr", "b", n, s, th, "with=" + others))
+        cases.append(e2e_case(tag, "attr", "t", n, s, th, "with=" + others))
+    cases.append(e2e_case("s2_plain", "attr", "b", 3, 2, [1], "with=s1_t2"))
+    cases.append(e2e_case("s3_t3", "attr", "b", 3, 2, [3], "with=s1_t2,s2_plain start=args-test-then-api-bench"))
+    # parameterless functions with a foreign ABI (plain, generic over types, over constants)
+    for tag, n, s, th, args in (("ext_c_2_2_t2", 2, 2, [2], [None]), ("ext_ty_3_1_t1", 3, 1, [1], ["u8", "u16"]),
+                                ("ext_const_1_3_t2", 1, 3, [2], ["4", "8"])):
+        for a in args:
+            extra = ("arg=" + a + " " if a else "") + "nomark=1"
+            cases.append(e2e_case(tag, "attr", "b", n, s, th, extra))
+            cases.append(e2e_case(tag, "attr", "t", n, s, th, extra))
     # how the run is started: the requested action (mode) decides, not the configured one
     for tag in ("a_5_3_t123", "g_4_2_t12", "rgi_3_2_t23", "a_1_4_t13"):
         n, s, th = E2E_ATTR[tag][1:4]
@@ -624,7 +642,7 @@ def shrink_e2e(item, rerun_case):
         for ch in cands:
             t = dict(d)
             t.update(ch)
-            line = " ".join(f"{k}={t[k]}" for k in ("bench", "via", "mode", "n", "s", "threads", "mx", "bn", "bs", "arg", "nomark", "start") if k in t)
+            line = " ".join(f"{k}={t[k]}" for k in ("bench", "via", "mode", "n", "s", "threads", "mx", "bn", "bs", "arg", "nomark", "with", "start") if k in t)
             try:
                 bad, impl, model, sb = fails(line)
             except Exception:
@@ -639,3 +657,77 @@ def shrink_e2e(item, rerun_case):
     out = dict(item)
     out.update({"case": best[0], "impl": best[1], "model": best[2], "spec_verdict": best[3], "shrunk_from": item["case"]})
     return out
+
+
+# ---------------------------------------------------------------------------
+# C04 end to end: time limits parsed from the command line / environment
+# ---------------------------------------------------------------------------
+
+def decimal_secs(ns_total):
+    """Nanoseconds -> decimal seconds with at most 9 fractional digits (exact)."""
+    ip, frac = divmod(ns_total, 10**9)
+    f = ("%09d" % frac).rstrip("0")
+    return f"{ip}.{f}" if f else str(ip)
+
+
+def cli_time_cases(rng, count):
+    """`vclk` of hx-loop-e2e on the virtual clock (every call costs `vcost` ps): --max-time / --min-time /
+    DIVAN_MAX_TIME / DIVAN_MIN_TIME with sub-millisecond parts, aimed at round boundaries."""
+    cases = []
+    fixed = [("maxs", "0.0004", "-", 100_000_000), ("maxs", "0.0014", "-", 100_000_000), ("mins", "0.0004", 1, 100_000_000),
+             ("maxs", "0.000000001", "-", 1000), ("maxs", "0.0000254", "-", 1_000_000), ("mins", "0.00049", 2, 100_000_000),
+             ("maxs", "1.0005", 7, 250_000_000_000), ("maxs", "0", 3, 1000), ("maxs", "2", 3, 1_000_000_000_000)]
+    for tok, val, n, cost in fixed:
+        for tvia in ("cli", "env"):
+            cases.append(f"bench=vclk via=cli mode=b n={n} s=1 threads=1 {tok}={val} tvia={tvia} vcost={cost}")
+    while len(cases) < count:
+        cost_ns = rng.choice([25_000, 100_000, 330_000, 1_000_000, 7])      # per call, in ns
+        k = rng.randrange(1, 25)
+        lim = max(0, k * cost_ns + rng.choice([-1, 0, 0, 1, cost_ns // 2, -cost_ns // 3]))
+        which = rng.choice(["maxs", "maxs", "mins", "both"])
+        s = rng.choice([1, 1, 2])
+        T = rng.choice([1, 1, 2])
+        toks = [f"bench=vclk via=cli mode=b"]
+        if which == "maxs":
+            toks += [f"n={rng.choice(['-', 60, 100])}", f"s={s}", f"threads={T}", f"maxs={decimal_secs(lim)}"]
+        elif which == "mins":
+            toks += [f"n={rng.randrange(1, 4)}", f"s={s}", f"threads={T}", f"mins={decimal_secs(lim)}"]
+        else:
+            toks += [f"n={rng.randrange(1, 4)}", f"s={s}", f"threads={T}", f"mins={decimal_secs(lim + 40 * cost_ns)}",
+                     f"maxs={decimal_secs(lim)}"]
+        toks += [f"tvia={rng.choice(['cli', 'env'])}"]
+        if rng.random() < 0.25:
+            toks.append("skipx=1")
+        toks.append(f"vcost={cost_ns * 1000}")
+        c = " ".join(toks)
+        if c not in cases:
+            cases.append(c)
+    return cases
+
+
+def cli_time_stream(name, cases):
+    def nt(case, model_line):
+        return "calls=" in model_line and "calls=0" not in model_line
+    return Stream(name, "c04cli", cases, nontrivial=nt, crate="hx-loop", drv="loop", impl_timeout=600,
+                  describe="real runner, limits parsed by clap from decimal seconds (cli / env), benchmark on the virtual clock: "
+                           "rounds vs the model with the exactly converted limits")
+
+
+def os_timer_stream(name):
+    """Two runs on the OS timer (about 1.2 s each): every call sleeps 400 ms, --max-time 1."""
+    cases = ["bench=os_sleep400 via=attr mode=b n=6 s=1 threads=1 maxs=1 sleepms=400 timer=os",
+             "bench=os_sleep400 via=cli mode=b n=12 s=1 threads=2 maxs=1.1 tvia=env sleepms=400 timer=os"]
+
+    def cmp(impl, model):
+        try:
+            for ri, rm in zip(impl.split(";"), model.split(";")):
+                di = dict(t.split("=", 1) for t in ri.split(" "))
+                bound = int(rm.split("rounds<=")[1])
+                calls = [int(x) for x in di["calls"].split(",")]
+                if not (1 <= calls[0] <= bound) or len(set(calls)) != 1:
+                    return False
+            return len(impl.split(";")) == len(model.split(";"))
+        except Exception:
+            return False
+    return Stream(name, "c04os", cases, compare=cmp, crate="hx-loop", drv="loop", impl_timeout=300,
+                  describe="real runner on the OS timer (Instant): calls of >= 400 ms under --max-time 1 s: at most ceil(max/400 ms) rounds")
